@@ -118,6 +118,10 @@ class Verdict:
                 return
         self.violations.append({"signature": signature, "summary": summary, "replay": replay})
 
+    def enough(self, n=40):
+        """a check that has already collected plenty of violations stops exploring (each failing case costs timeouts)"""
+        return len(self.violations) >= n
+
     def note_inconclusive(self, why):
         self.inconclusive.append(why)
 
